@@ -100,8 +100,30 @@ def run_case(case):
     return out
 
 
+def signatures():
+    """positional parameters (without self) of every public method: [[name, has_default, default], ...]"""
+    import inspect
+    out = {}
+    for klass in (Led, RGBLed):
+        d = {}
+        for name, fn in vars(klass).items():
+            if name.startswith("_") and name != "__init__":
+                continue
+            f = {_sb: _orig_sb, _sc: _orig_sc}.get(fn, fn)
+            if not inspect.isfunction(f):
+                continue
+            ps = list(inspect.signature(f).parameters.values())[1:]
+            d[name] = [[q.name, q.default is not inspect.Parameter.empty,
+                        None if q.default is inspect.Parameter.empty else q.default] for q in ps]
+        out[klass.__name__] = d
+    return out
+
+
 def main():
     req = json.load(sys.stdin)
+    if req.get("signatures"):
+        json.dump(signatures(), sys.stdout)
+        return
     json.dump([run_case(c) for c in req["cases"]], sys.stdout)
 
 
